@@ -228,6 +228,22 @@ def replay(cs, scenario, graph, rec, modes=DEFAULT_MODES, foreign=True, max_stat
                 counter += 1
                 rec.genstep(eids[0], obj, spec_for(cs, params, k, modes[0][1], counter),
                             pyref.draw_for(a["prob"], luck, 0))
+    if extras and order:
+        # copy.deepcopy(environment) in the middle of an episode (the deepest state's walk): parent and copy go on
+        s_ = order[-1]
+        for e in eids[:1]:
+            rec.reset(e)
+            for (pre, k, luck, post, gate) in path_to(parent, s_):
+                a = pyref.flat_action(cs, k)
+                rec.step(e, spec_for(cs, params, k, modes[0][1], 0), pyref.draw_for(a["prob"], luck, 0))
+            new_e = len(eids) + 1
+            if rec.fork(e, new_e).get("ev") == "fork":
+                for t_, (pre, k, luck, post, gate) in enumerate(list(out[s_])[:12] + list(out[order[0]])[:6]):
+                    a = pyref.flat_action(cs, k)
+                    rec.step((e, new_e)[t_ % 2], spec_for(cs, params, k, modes[0][1], t_),
+                             pyref.draw_for(a["prob"], luck, 0))
+                rec.reset(new_e)
+                rec.goal(new_e, None)
     for e in eids:
         rec.reset(e)
     if extras:
